@@ -147,6 +147,15 @@ def run(p, script, seed=0):
     L = p["L"] if p["L"] is not None else p["n0"]
     ev = [dict(op="set_reference", rows=ref_bits(ref, clf, p["k"]), raised="None", m=0, c=0, nrows=p["n0"], colsok=True,
                newref=[], **project(det))]
+    # the row label of the one-row frames handed over: 0 (a fresh frame), the running position (one-row slices `stream.iloc[[t]]` of a larger
+    # frame; each waiting period then starts at an arbitrary small or large label), or one fixed non-zero label.  Rows are rows.
+    istyle = rng.choice(["zero", "pos", "pos1", "same"])
+    calls = [rng.choice([0, 1, 2, 3])]
+
+    def one(row):
+        calls[0] += 1
+        k = {"zero": 0, "pos": calls[0], "pos1": calls[0] % 3 + 1, "same": 2}[istyle]
+        return pd.DataFrame([row], index=[k])
     pending = []      # labelled rows given so far in this waiting period (to compute their bits when they become the reference)
     for s in script:
         kind = s[0]
@@ -156,7 +165,7 @@ def run(p, script, seed=0):
             if kind == "update":
                 row = mk(bool(s[1]))
                 e["m"] = mbit([row["x0"], row["x1"]], clf) if svc else s[1]
-                det.update(pd.DataFrame([row]))
+                det.update(one(row))
             elif kind == "update2":
                 e["nrows"] = 2
                 det.update(pd.DataFrame([mk(True), mk(False)]))
@@ -164,7 +173,7 @@ def run(p, script, seed=0):
                 row = mk(bool(s[1]), bool(s[2]))
                 was_waiting = det.waiting_for_oracle
                 n_before = 0 if det.oracle_data is None else len(det.oracle_data)
-                lab = pd.DataFrame([row])
+                lab = one(row)
                 if rng.random() < 0.4:          # the same columns in another order: still the same labelled sample
                     cols = list(lab.columns)
                     rng.shuffle(cols)
